@@ -98,7 +98,9 @@ def all_triples(cls):
 # ---------------------------------------------------------------------------------------------
 # sample generation
 # ---------------------------------------------------------------------------------------------
-def gen_sample(rng, n, target, classes):
+def gen_sample(rng, n, target, classes, flip=False):
+    """a valid sample; with flip the relation between the features and the target is reversed and one
+    category becomes rare, so that re-running a fit on it would lead to another fitted state"""
     q1, q2, c1, o1, y = [], [], [], [], []
     for i in range(n):
         z = rng.random()
@@ -106,6 +108,11 @@ def gen_sample(rng, n, target, classes):
         q2.append(int(rng.randrange(0, 6) + 4 * z))
         c1.append(CATS[min(3, int(z * 4 + rng.uniform(-0.8, 0.8))) if rng.random() < 0.85 else rng.randrange(4)])
         o1.append(ORDER[max(0, min(4, int(z * 5 + rng.uniform(-0.9, 0.9))))])
+        if flip:
+            z = 1 - z if rng.random() < 0.9 else rng.random()
+            if c1[-1] == "b" and rng.random() < 0.8:
+                c1[-1] = "a"
+            q1[-1] = round(q1[-1] * 0.5 + 20, 1)
         if target == "binary":
             y.append(1 if z + rng.uniform(-0.25, 0.25) > 0.5 else 0)
         elif target == "continuous":
@@ -128,6 +135,22 @@ def gen_sample(rng, n, target, classes):
     return {"q1": encs(q1), "q2": encs(q2), "c1": encs(c1), "o1": encs(o1), "y": encs(y)}
 
 
+def gen_feats(rng, cls, mal):
+    """the features given to the object: the full set of the class, or (classes with several kinds
+    of features) a random non-empty subset compatible with the malformation"""
+    q, c, o = FEATS[cls]
+    kinds = [k for k, v in (("q", q), ("c", c), ("o", o)) if v]
+    need = {"quant_str": "q", "feature_overlap": "q", "ordinal_unknown": "o"}.get(mal)
+    keep = set(kinds)
+    if len(kinds) > 1 and rng.random() < 0.5:
+        keep = {k for k in kinds if rng.random() < 0.5}
+        if need:
+            keep.add(need)
+        if not keep:
+            keep = {rng.choice(kinds)}
+    return {"q": q if "q" in keep else [], "c": c if "c" in keep else [], "o": o if "o" in keep else []}
+
+
 def gen_case(rng, cls, ep, mal, var):
     target = {"ContinuousCarver": "continuous", "MulticlassCarver": "multiclass"}.get(cls, "binary")
     classes = rng.choice([["a", "b", "c"], [0, 1, 2], [1, 2, 3, 4], ["u", "v", "w"]]) if target == "multiclass" else None
@@ -135,7 +158,8 @@ def gen_case(rng, cls, ep, mal, var):
     start = rng.choice([0, 0, 7, 100])
     case = {"cls": cls, "ep": ep, "mal": mal, "var": var, "n": n,
             "index_start": start, "train": gen_sample(rng, n, target, classes),
-            "new": gen_sample(rng, rng.choice([30, 40, 50]), target, classes),
+            "new": gen_sample(rng, rng.choice([30, 40, 50]), target, classes, flip=True),
+            "feats": gen_feats(rng, cls, mal),
             "dev": None, "new_dev": None,
             "min_freq": rng.choice([0.1, 0.15, 0.2]), "copy": rng.random() < 0.5,
             "output_dtype": rng.choice(["float", "str"]), "dropna": rng.random() < 0.5,
@@ -145,16 +169,21 @@ def gen_case(rng, cls, ep, mal, var):
     dev_side = var.endswith("@dev")
     if cls in CARVERS and (dev_side or rng.random() < 0.4):
         case["dev"] = gen_sample(rng, rng.choice([40, 60]), target, classes)
-        case["new_dev"] = gen_sample(rng, rng.choice([40, 60]), target, classes)
+        case["new_dev"] = gen_sample(rng, rng.choice([40, 60]), target, classes, flip=True)
     return case
 
 
 # ---------------------------------------------------------------------------------------------
 # running the implementation
 # ---------------------------------------------------------------------------------------------
-def frame(sample, cls, start=0):
+def feats_of(case):
+    f = case["feats"]
+    return list(f["q"]), list(f["c"]), list(f["o"])
+
+
+def frame(sample, case, start=0):
     import pandas as pd
-    qf, cf, of = FEATS[cls]
+    qf, cf, of = feats_of(case)
     cols = qf + cf + of
     n = len(sample["y"])
     # an extra untouched column: the objects must not need it
@@ -174,7 +203,7 @@ def construct(case, overlap=None, sort_by=None):
     import AutoCarver.discretizers as D
     import AutoCarver as A
     cls = case["cls"]
-    qf, cf, of = (list(x) for x in FEATS[cls])
+    qf, cf, of = feats_of(case)
     if overlap == "quant_quali":
         cf = cf + [qf[0]]
     elif overlap == "quant_ordinal":
@@ -271,7 +300,7 @@ def inject(case, obj, X, y, fitted):
         col = req[min(len(req) - 1, int(case["pos2"] * len(req)))]
         return X.drop(columns=[col]), y, None
     if mal == "quant_str":
-        cols = [c for c in FEATS[cls][0] if (not fitted) or (c in required_columns(obj) and raw_is(obj, c, "quant"))]
+        cols = [c for c in feats_of(case)[0] if (not fitted) or (c in required_columns(obj) and raw_is(obj, c, "quant"))]
         if not cols:
             return X, y, "no quantitative column left"
         col = cols[min(len(cols) - 1, int(case["pos2"] * len(cols)))]
@@ -279,7 +308,7 @@ def inject(case, obj, X, y, fitted):
         X.iloc[pos, list(X.columns).index(col)] = "oops"
         return X, y, None
     if mal == "ordinal_unknown":
-        cols = [c for c in FEATS[cls][2] if (not fitted) or (c in required_columns(obj) and raw_is(obj, c, "quali"))]
+        cols = [c for c in feats_of(case)[2] if (not fitted) or (c in required_columns(obj) and raw_is(obj, c, "quali"))]
         if not cols:
             return X, y, "no ordinal column left"
         X.iloc[pos, list(X.columns).index(cols[0])] = "L9"
@@ -325,7 +354,7 @@ def snapshot(obj, case):
     except Exception as e:  # noqa: BLE001
         snap["json"] = f"raised {type(e).__name__}: {e}"[:200]
     try:
-        Xt = obj.transform(frame(case["new"], case["cls"], 500))
+        Xt = obj.transform(frame(case["new"], case, 500))
         snap["transform"] = json.dumps({str(c): encs(list(Xt[c])) for c in sorted(Xt.columns)}, sort_keys=True)
     except Exception as e:  # noqa: BLE001
         snap["transform"] = f"raised {type(e).__name__}: {e}"[:200]
@@ -367,10 +396,10 @@ def run_case(case):
         return o.fit(X, y)
 
     if ep == "fit":
-        X, y = frame(case["train"], cls, st), target(case["train"], st)
+        X, y = frame(case["train"], case, st), target(case["train"], st)
         Xd = yd = None
         if has_dev:
-            Xd, yd = frame(case["dev"], cls, 1000), target(case["dev"], 1000)
+            Xd, yd = frame(case["dev"], case, 1000), target(case["dev"], 1000)
         if dev_side:
             Xd, yd, skip = inject(case, obj, Xd, yd, False)
         else:
@@ -384,10 +413,10 @@ def run_case(case):
         return out
 
     # refit / transform: a successful first fit, a snapshot, the rejected call, a second snapshot
-    X, y = frame(case["train"], cls, st), target(case["train"], st)
+    X, y = frame(case["train"], case, st), target(case["train"], st)
     Xd = yd = None
     if has_dev:
-        Xd, yd = frame(case["dev"], cls, 1000), target(case["dev"], 1000)
+        Xd, yd = frame(case["dev"], case, 1000), target(case["dev"], 1000)
     res, err = call(lambda: do_fit(obj, X, y, Xd, yd))
     if res != "ok":
         return {"skip": "first fit failed: " + err}
@@ -397,10 +426,10 @@ def run_case(case):
     out["fitted_before"] = True
     out["n_features_fitted"] = len(obj.features)
     if ep == "refit":
-        X2, y2 = frame(case["new"], cls, st), target(case["new"], st)
+        X2, y2 = frame(case["new"], case, st), target(case["new"], st)
         Xd2 = yd2 = None
         if has_dev:
-            Xd2, yd2 = frame(case["new_dev"], cls, 1000), target(case["new_dev"], 1000)
+            Xd2, yd2 = frame(case["new_dev"], case, 1000), target(case["new_dev"], 1000)
         if dev_side:
             Xd2, yd2, skip = inject(case, obj, Xd2, yd2, True)
         else:
@@ -409,7 +438,7 @@ def run_case(case):
             return {"skip": skip}
         out["outcome"], out["error"] = call(lambda: do_fit(obj, X2, y2, Xd2, yd2))
     else:
-        X2, y2 = frame(case["new"], cls, st), target(case["new"], st)
+        X2, y2 = frame(case["new"], case, st), target(case["new"], st)
         with_y = mal in ("y_not_series", "y_nan", "index_mismatch") or var == "with_y"
         X2, y2, skip = inject(case, obj, X2, y2, True)
         if skip:
